@@ -547,6 +547,23 @@ type LogBroken struct {
 }
 
 func (x *Exec) emit(v any) {
+	switch lo := v.(type) {
+	case LogOp:
+		if lo.Ret4 == nil {
+			lo.Ret4 = []ecs.Entity{}
+		}
+		if lo.Fresh4 == nil {
+			lo.Fresh4 = []ecs.Entity{}
+		}
+		v = lo
+	case *LogOp:
+		if lo.Ret4 == nil {
+			lo.Ret4 = []ecs.Entity{}
+		}
+		if lo.Fresh4 == nil {
+			lo.Fresh4 = []ecs.Entity{}
+		}
+	}
 	b, err := func() (b []byte, err error) {
 		defer func() {
 			if r := recover(); r != nil {
@@ -806,7 +823,7 @@ func (x *Exec) mapFor(tuple []string) TypedMap {
 	key := strings.Join(tuple, ",")
 	if x.Cfg.MapT && len(tuple) == 1 {
 		if ctor, ok := mapTCtors[key]; ok {
-			x.Cover["Map"]++
+			covHit(x.Cover, "Map")
 			if m, ok := x.maps["T:"+key]; ok {
 				return m
 			}
@@ -815,7 +832,7 @@ func (x *Exec) mapFor(tuple []string) TypedMap {
 			return m
 		}
 	}
-	x.Cover[fmt.Sprintf("Map%d", len(tuple))]++
+	covHit(x.Cover, fmt.Sprintf("Map%d", len(tuple)))
 	if m, ok := x.maps[key]; ok {
 		return m
 	}
@@ -830,7 +847,7 @@ func (x *Exec) mapFor(tuple []string) TypedMap {
 
 func (x *Exec) exFor(tuple []string, rem []string) TypedExchange {
 	key := strings.Join(tuple, ",") + "|" + strings.Join(rem, ",")
-	x.Cover[fmt.Sprintf("Exchange%d", len(tuple))]++
+	covHit(x.Cover, fmt.Sprintf("Exchange%d", len(tuple)))
 	if m, ok := x.exs[key]; ok {
 		return m
 	}
@@ -896,9 +913,13 @@ func (x *Exec) typedRels(tuple []string, tg map[string]ecs.Entity) []ecs.Relatio
 	}
 	sort.Strings(keys)
 	r := []ecs.Relation{}
-	mapTTargets = mapTTargets[:0]
+	if x.Cfg.MapT {
+		mapTTargets = mapTTargets[:0] // (single goroutine: the concurrency runs do not use ecs.Map[T])
+	}
 	for _, k := range keys {
-		mapTTargets = append(mapTTargets, tg[k])
+		if x.Cfg.MapT {
+			mapTTargets = append(mapTTargets, tg[k])
+		}
 		idx := -1
 		for i, c := range tuple {
 			if c == k {
@@ -1131,7 +1152,7 @@ func (x *Exec) buildFilter(with, without []string, excl bool, ft map[string]ecs.
 	if x.Cfg.Path == "unsafe" {
 		n = 0
 	}
-	x.Cover[fmt.Sprintf("Filter%d", n)]++
+	covHit(x.Cover, fmt.Sprintf("Filter%d", n))
 	if n == 0 {
 		f0 := ecs.NewFilter0(x.w)
 		cs := []ecs.Comp{}
@@ -1319,10 +1340,10 @@ func (x *Exec) dispatch(op GenOp, e ecs.Entity, tg map[string]ecs.Entity, lo *Lo
 		switch op.Op {
 		case "AddBatch", "ExchangeBatch", "RemoveBatch", "SetRelBatch", "KillBatch":
 			if x.unbatch(op, tg, lo) {
-				x.Cover["unbatched."+op.Op]++
+				covHit(x.Cover, "unbatched."+op.Op)
 				return
 			}
-			x.Cover["unbatch-not-applicable."+op.Op]++
+			covHit(x.Cover, "unbatch-not-applicable."+op.Op)
 		}
 	}
 	switch op.Op {
@@ -1665,11 +1686,11 @@ func (x *Exec) dispatch(op GenOp, e ecs.Entity, tg map[string]ecs.Entity, lo *Lo
 					})
 				to.Register(w)
 				x.tobs[op.O] = to
-				x.Cover[fmt.Sprintf("Observer%d", len(tuple))]++
+				covHit(x.Cover, fmt.Sprintf("Observer%d", len(tuple)))
 				return
 			}
 		}
-		x.Cover["Observer"]++
+		covHit(x.Cover, "Observer")
 		o := ecs.Observe(x.eventType(op.Obs.Ev)).For(compsOf(op.Obs.Obs)...).With(compsOf(op.Obs.With)...)
 		if op.Obs.Excl {
 			o = o.Exclusive()
